@@ -63,6 +63,9 @@ claim("C10", "iterator typestate on the two cursors of the blending function + e
 claim("C04", "resolved dataflow from tuple positions / header fields to aggregate fields + exact polynomial forms of index bases and record lengths + control dependence on string-literal comparisons + derive key-table check, over rustc MIR",
       "Sound static decision of every layout convention between the voice-file reader and its consumers: header field -> metadata field (same name; serde keys = upper-case field names), node-line token -> yes/no child -> tree walk direction, tree index +2/-2 and 1-based PDF ids, the mean|variance|msd split and the three PDF record lengths, little-endian f32 widened exactly to f64, option key -> condition field, and fast-matcher-then-regex wiring. NOT decided: the wildcard semantics inside the third-party jlabel-question crate and window text -> float parsing.")
 
+claim("C14", "dominating-guard (no-effect) rule + exact polynomial forms of the coefficient updates and conversion recurrences + dominance ordering of the energy measurements + a polynomial identity computed by the checker + parameter plumbing/taint of beta, over rustc MIR",
+      "Sound static decision of the structural clauses of C14: the postfilter has no effect for beta <= 0 or order <= 2 (both filter families); b1 <- b1 - beta*alpha*b2, b_k <- (1+beta) b_k for k >= 2, b0 <- b0 + ln(e1/e2)/2 with e1/e2 measured before/after; with c_i = b_i + alpha b_{i+1} these give c1 unchanged and c_k scaled by 1+beta (identity checked algebraically); condition.beta is what both postfilters receive and reaches nothing else. NOT decided: energy preserved within 1 % (576-tap truncation).")
+
 
 def main():
     props = [json.loads(l) for l in open(os.path.join(VERIF, "properties.jsonl"))]
